@@ -32,10 +32,15 @@ def enum_chains(ctx, k, decos, maxdeco=1, fams=None, sinkable=None, simulate=Non
     if simulate:
         kw = dict(simulate="num=%d" % simulate, depth=depth or (k + 1), seed=ctx.seed)
     r = ctx.tlc_must_pass("ProgSpace", data=data, subdir="progspace-" + tag, timeout=900, deadlock=False, **kw)
-    path = os.path.join(r.dir, "chains.ndjson")
-    if not os.path.exists(path):
-        raise Inconclusive("ProgSpace produced no chains:\n" + r.out[-2000:])
-    chains = [[tuple(x) for x in rec["chain"]] for rec in vlib.read_ndjson(path)]
+    import re
+    chains = set()
+    for line in r.out.splitlines():
+        if line.startswith('"<<\\"CHAIN\\"'):
+            pairs = re.findall(r'<<\\"([A-Za-z0-9_]+)\\", \\"([A-Za-z0-9_]+)\\">>', line)
+            chains.add(tuple((a, b) for a, b in pairs))
+    if "PROGSPACE" not in r.out:
+        raise Inconclusive("ProgSpace did not reach its postcondition:\n" + r.out[-2000:])
+    chains = [list(c) for c in chains]
     chains.sort()
     return chains
 
@@ -222,7 +227,9 @@ def bits_of(dec):
 def tlc_batches(ctx, progs, module, cfg, facts_of, nbatch=8, timeout=1200, tag="obs", extra_out=None):
     """run GoSem+Obs module over the programs in nbatch parallel TLC processes.
     facts_of(p) -> record for facts.ndjson.  Returns (truth, misses) with program indices mapped back."""
-    batches = [progs[i::nbatch] for i in range(nbatch)]
+    # registers are sets: keep batches small (collection is quadratic in the batch size)
+    nb = max(nbatch, (len(progs) + 399) // 400)
+    batches = [progs[i::nb] for i in range(nb)]
     batches = [b for b in batches if b]
 
     def run(bi):
@@ -281,7 +288,9 @@ def check_model_vs_native(ctx, progs, truth, kinds=("flow",)):
 
 
 RW_RUNS = [c + ":rw" for c in TAINT_CONFIGS]
-ALL_TAINT_RUNS = list(TAINT_CONFIGS) + RW_RUNS
+# source rewrites only concern calls into the standard library (sort.Slice, sync.Once.Do, ...): the generated
+# programs are import-free, so the rewritten load is exercised on two configurations only
+ALL_TAINT_RUNS = list(TAINT_CONFIGS) + ["t000:rw", "t111:rw"]
 
 
 def taint_facts_of(p):
